@@ -31,7 +31,19 @@ import (
 var targets = []string{
 	"verifyIssuer", "verifyTimeConstraint", "verifyExpiration", "verifyIssuedAt", "verifyNotBefore", "verifyAudience", "JWT.Verify",
 	"TraefikOidc.determineScheme", "TraefikOidc.determineHost", "TraefikOidc.determineExcludedURL", "TraefikOidc.isAllowedDomain",
+	"isLocalRedirectTarget", "buildFullURL", "TraefikOidc.extractGroupsAndRoles", "splitIntoChunks", "TraefikOidc.isUserAuthenticated",
 }
+
+// functions of /repo that are not translated but called by translated ones: they become fields of the instance record
+// (`Go.Inst`), i.e. parameters the theorems quantify over.  name as written at the call site -> result types
+var externals = map[string][]string{
+	"parseJWT":                      {"jwt", "error"},
+	"t.extractClaimsFunc":           {"obj", "error"},
+	"t.VerifyJWTSignatureAndClaims": {"error"},
+}
+
+// getters of *SessionData read by translated functions (fields of `Go.Sess`)
+var sessGetters = map[string]string{"GetAuthenticated": "bool", "GetAccessToken": "str", "GetRefreshToken": "str", "GetEmail": "str"}
 
 // package-level variables / constants translated (name -> Lean type)
 var globals = map[string]string{"ClockSkewToleranceFuture": "dur", "ClockSkewTolerancePast": "dur", "ClockSkewTolerance": "dur"}
@@ -40,6 +52,7 @@ type fn struct {
 	key      string
 	decl     *ast.FuncDecl
 	needsNow bool
+	fuel     bool // contains a general `for` loop: takes a fuel argument, result wrapped in Option (none = fuel exhausted)
 	calls    []string
 	retTypes []string
 }
@@ -50,6 +63,14 @@ var (
 	byName = map[string]*fn{} // bare function / method name -> fn (translated ones only)
 	gdecl  = map[string]ast.Expr{}
 )
+
+var leanKeywords = map[string]bool{"exists": true, "from": true, "at": true, "end": true, "then": true, "do": true, "let": true, "have": true,
+	"fun": true, "match": true, "with": true, "in": true, "instance": true, "structure": true, "class": true, "theorem": true, "def": true,
+	"open": true, "namespace": true, "section": true, "variable": true, "universe": true, "by": true, "show": true, "mut": true, "where": true,
+	"deriving": true, "import": true, "export": true, "local": true, "private": true, "protected": true, "partial": true, "unsafe": true,
+	"macro": true, "syntax": true, "notation": true, "calc": true, "nomatch": true, "nofun": true, "this": true, "Type": true, "Sort": true,
+	"Prop": true, "forall": true, "axiom": true, "example": true, "abbrev": true, "inductive": true, "mutual": true, "set_option": true,
+	"suffices": true, "obtain": true, "using": true, "extends": true, "attribute": true, "noncomputable": true, "opaque": true}
 
 type unsupported struct{ msg string }
 
@@ -96,6 +117,8 @@ func leanType(t string) string {
 		return "Go.JWT"
 	case "boolmap":
 		return "(List (Go.Str × Bool))"
+	case "sess":
+		return "Go.Sess"
 	}
 	fail(nil, "no Lean type for %q", t)
 	return ""
@@ -137,6 +160,8 @@ func goType(e ast.Expr) string {
 				return "inst"
 			case "JWT":
 				return "jwt"
+			case "SessionData":
+				return "sess"
 			}
 		}
 	case *ast.SelectorExpr:
@@ -183,6 +208,9 @@ func lit(s string) string {
 		if i > 0 {
 			b.WriteString(",")
 		}
+		if r >= 128 || (r < 32 && r != '\n' && r != '\t') {
+			fail(nil, "string literal with a character outside printable ASCII (strings are modelled as byte sequences)")
+		}
 		switch r {
 		case '\'':
 			b.WriteString(`'\''`)
@@ -210,6 +238,7 @@ type ctx struct {
 	f       *fn
 	scopes  []*scope
 	fresh   int
+	recv    string                // Lean name of the receiver, "" for plain functions
 	retWrap []func(string) string // how `return e` is written at this nesting (function level: identity; in a loop body: `.ret e`)
 	brk     []func() string       // what `break` is at this nesting
 }
@@ -247,7 +276,10 @@ func (c *ctx) declare(name, typ string) string {
 		return ln
 	}
 	ln := name
-	if _, _, visible := c.lookup(name); visible || name == "now" || byName[name] != nil || globals[name] != "" {
+	if leanKeywords[name] {
+		ln = name + "_"
+	}
+	if _, _, visible := c.lookup(name); visible || name == "now" || name == "fuel" || byName[name] != nil || globals[name] != "" {
 		c.fresh++
 		ln = fmt.Sprintf("%s_%d", name, c.fresh)
 	}
@@ -320,6 +352,20 @@ func (c *ctx) expr(e ast.Expr) (string, string) {
 		case "strs":
 			return "(Go.idx " + m + " " + k + ")", "str"
 		}
+	case *ast.SliceExpr:
+		v, t := c.expr(x.X)
+		if t != "str" || x.Slice3 {
+			fail(x, "slice of a %s", t)
+		}
+		if x.Low != nil && x.High == nil {
+			lo, _ := c.expr(x.Low)
+			return "(Go.sliceFrom " + v + " " + lo + ")", "str"
+		}
+		if x.Low == nil && x.High != nil {
+			hi, _ := c.expr(x.High)
+			return "(Go.sliceTo " + v + " " + hi + ")", "str"
+		}
+		fail(x, "unsupported slice form")
 	case *ast.CompositeLit:
 		if goType(x.Type) == "boolmap" {
 			var items []string
@@ -403,6 +449,8 @@ func (c *ctx) selector(x *ast.SelectorExpr) (string, string) {
 		return r + "." + x.Sel.Name, "obj"
 	case "inst.excludedURLs", "inst.allowedUserDomains", "inst.allowedRolesAndGroups":
 		return r + "." + x.Sel.Name, "set"
+	case "inst.refreshGracePeriod":
+		return r + "." + x.Sel.Name, "dur"
 	}
 	fail(x, "unsupported field %s of a %s", x.Sel.Name, t)
 	return "", ""
@@ -449,6 +497,49 @@ func (c *ctx) call(x *ast.CallExpr) (string, string) {
 	case "time.Now":
 		c.f.needsNow = true
 		return "now", "time"
+	case "time.Until":
+		c.f.needsNow = true
+		as, _ := c.args(x)
+		return "(Go.timeSub " + as[0] + " now)", "dur"
+	case "append":
+		if len(x.Args) != 2 || x.Ellipsis.IsValid() {
+			fail(x, "append with other than one element")
+		}
+		as, ts := c.args(x)
+		if ts[0] != "strs" && ts[0] != "anys" {
+			fail(x, "append to a %s", ts[0])
+		}
+		return "(" + as[0] + " ++ [" + as[1] + "])", ts[0]
+	case "strings.Contains":
+		as, _ := c.args(x)
+		return "(Go.contains " + as[0] + " " + as[1] + ")", "bool"
+	case "fmt.Sprintf":
+		l, ok := x.Args[0].(*ast.BasicLit)
+		if !ok || l.Kind != token.STRING {
+			fail(x, "format that is not a literal")
+		}
+		f, _ := strconv.Unquote(l.Value)
+		pieces := strings.Split(f, "%s")
+		if strings.Contains(strings.Join(pieces, ""), "%") || len(pieces) != len(x.Args) {
+			fail(x, "format with verbs other than %%s, or a wrong number of arguments")
+		}
+		var parts []string
+		for i, p := range pieces {
+			if p != "" {
+				parts = append(parts, lit(p))
+			}
+			if i+1 < len(pieces) {
+				a, t := c.expr(x.Args[i+1])
+				if t != "str" {
+					fail(x, "%%s applied to a %s", t)
+				}
+				parts = append(parts, a)
+			}
+		}
+		if len(parts) == 0 {
+			return lit(""), "str"
+		}
+		return "(" + strings.Join(parts, " ++ ") + ")", "str"
 	case "time.Unix":
 		as, _ := c.args(x)
 		return "(Go.timeUnix " + as[0] + " " + as[1] + ")", "time"
@@ -498,6 +589,19 @@ func (c *ctx) call(x *ast.CallExpr) (string, string) {
 				return "(Go.time" + sel.Sel.Name + " " + r + " " + as[0] + ")", "bool"
 			case "time.UTC":
 				return r, "time"
+			case "dur.Seconds":
+				return "(Go.durSeconds " + r + ")", "f64"
+			case "error.Error":
+				return "(Go.errText " + r + ")", "str"
+			}
+			if t == "sess" {
+				if rt, ok := sessGetters[sel.Sel.Name]; ok && len(x.Args) == 0 {
+					return r + "." + sel.Sel.Name, rt
+				}
+			}
+			if rts, ok := externals[fun]; ok && len(rts) == 1 {
+				as, _ := c.args(x)
+				return "(" + r + "." + sel.Sel.Name + " " + strings.Join(as, " ") + ")", rts[0]
 			}
 			if g := byName[sel.Sel.Name]; g != nil && g.decl.Recv != nil && (t == "inst" || t == "jwt") {
 				return c.callTranslated(g, x, r)
@@ -530,6 +634,9 @@ func canonical(s string) string {
 
 func (c *ctx) callTranslated(g *fn, x *ast.CallExpr, recv string) (string, string) {
 	c.f.calls = append(c.f.calls, g.key)
+	if g.fuel {
+		fail(x, "call of a function with a general loop (%s)", g.key)
+	}
 	parts := []string{leanName(g.key)}
 	if g.needsNow {
 		c.f.needsNow = true
@@ -585,6 +692,10 @@ func zero(t string) string {
 		return "false"
 	case "int":
 		return "(0 : Int)"
+	case "strs":
+		return "([] : List Go.Str)"
+	case "anys":
+		return "([] : List Go.Any)"
 	}
 	fail(nil, "zero value of a %s", t)
 	return ""
@@ -627,6 +738,23 @@ func (c *ctx) assign(s *ast.AssignStmt, k func() string) string {
 			}
 			a, ok := bind(s.Lhs[0], at), bind(s.Lhs[1], "bool")
 			return fmt.Sprintf("let (%s, %s) := %s %s\n%s", a, ok, fnm, v, k())
+		case *ast.CallExpr:
+			fun := src(r.Fun)
+			if rts, ok := externals[fun]; ok && len(rts) == 2 {
+				callee := ""
+				if sel, isSel := r.Fun.(*ast.SelectorExpr); isSel {
+					rv, _ := c.expr(sel.X)
+					callee = rv + "." + sel.Sel.Name
+				} else {
+					if c.recv == "" {
+						fail(r, "call of %s outside a method of the instance", fun)
+					}
+					callee = c.recv + "." + fun
+				}
+				as, _ := c.args(r)
+				a, b := bind(s.Lhs[0], rts[0]), bind(s.Lhs[1], rts[1])
+				return fmt.Sprintf("let (%s, %s) := (%s %s)\n%s", a, b, callee, strings.Join(as, " "), k())
+			}
 		case *ast.IndexExpr:
 			m, mt := c.expr(r.X)
 			key, _ := c.expr(r.Index)
@@ -680,6 +808,8 @@ func (c *ctx) ret(s *ast.ReturnStmt) string {
 		if t == "nil" {
 			if i < len(c.f.retTypes) && c.f.retTypes[i] == "error" {
 				v = "(none : Go.Err)"
+			} else if i < len(c.f.retTypes) && (c.f.retTypes[i] == "strs" || c.f.retTypes[i] == "anys") {
+				v = zero(c.f.retTypes[i])
 			} else {
 				fail(s, "nil returned as something that is not an error")
 			}
@@ -872,6 +1002,28 @@ func (c *ctx) stmt(s ast.Stmt, k func() string) string {
 		}
 		c.pop()
 		return out.String()
+	case *ast.ForStmt:
+		if x.Init != nil || x.Post != nil || x.Cond == nil {
+			fail(x, "unsupported for form")
+		}
+		c.f.fuel = true
+		state := c.assigned(x.Body)
+		st := tuple(state)
+		cond, ct := c.expr(x.Cond)
+		if ct != "bool" {
+			fail(x.Cond, "condition of type %s", ct)
+		}
+		c.retWrap = append(c.retWrap, func(e string) string { return ".ret (" + e + ")" })
+		c.brk = append(c.brk, func() string { return ".brk " + st })
+		body := c.block(x.Body, func() string { return ".next " + st })
+		c.retWrap = c.retWrap[:len(c.retWrap)-1]
+		c.brk = c.brk[:len(c.brk)-1]
+		after := k()
+		if len(c.retWrap) != 1 {
+			fail(x, "general for loop nested in another loop")
+		}
+		return fmt.Sprintf("match Go.forWhile fuel %s (fun %s => %s) (fun %s =>\n%s) with\n| none => none\n| some (.ret r) => some r\n| some (.next %s) =>\n%s\n| some (.brk %s) =>\n%s",
+			st, st, cond, st, indent(body), st, indent(after), st, indent(after))
 	case *ast.RangeStmt:
 		xs, t := c.expr(x.X)
 		var elemT string
@@ -937,13 +1089,19 @@ func (f *fn) translate() (code string, err string) {
 		}
 	}()
 	c := &ctx{f: f}
-	c.retWrap = []func(string) string{func(e string) string { return e }}
+	c.retWrap = []func(string) string{func(e string) string {
+		if f.fuel {
+			return "some (" + e + ")"
+		}
+		return e
+	}}
 	c.push()
 	var params []string
 	if f.decl.Recv != nil {
 		r := f.decl.Recv.List[0]
 		t := goType(r.Type)
-		params = append(params, fmt.Sprintf("(%s : %s)", c.declare(r.Names[0].Name, t), leanType(t)))
+		c.recv = c.declare(r.Names[0].Name, t)
+		params = append(params, fmt.Sprintf("(%s : %s)", c.recv, leanType(t)))
 	}
 	for _, p := range f.decl.Type.Params.List {
 		t := goType(p.Type)
@@ -970,6 +1128,13 @@ func (f *fn) translate() (code string, err string) {
 	})
 	if f.needsNow {
 		params = append([]string{"(now : Go.Time)"}, params...)
+	}
+	if f.fuel {
+		params = append([]string{"(fuel : Nat)"}, params...)
+		if len(rts) > 1 {
+			rt = "(" + rt + ")"
+		}
+		rt = "Option " + rt
 	}
 	return fmt.Sprintf("def %s %s : %s :=\n%s\n", leanName(f.key), strings.Join(params, " "), rt, indent(body)), ""
 }
